@@ -142,6 +142,16 @@ pub fn run_one(b: u64, arrived: &[(i64, i64)], sync: bool, seed: u64) -> Value {
         }
     }
     arr.sort();
+    if let Ok(path) = std::env::var("MR_DUMP") {
+        let mut o = String::new();
+        for r in &sim.log[log_start..] {
+            let m = r.msg.as_ref();
+            o.push_str(&format!("{} {} -> {} {} {:?} tid={:?} delivered={:?}\n", r.sent_ns / 1_000_000, r.from, r.to,
+                m.map(|m| m.q.clone().unwrap_or(m.response_kind().to_string())).unwrap_or_default(),
+                m.and_then(|m| m.arg_int("seq")), m.and_then(|m| m.tid_u32()), r.delivered_ns.iter().map(|x| x / 1_000_000).collect::<Vec<_>>()));
+        }
+        let _ = std::fs::write(path, o);
+    }
     sim.shutdown();
     json!({"e":"run","b":b,"flavour": if sync {"sync"} else {"async"},
         "arrived": arr.iter().map(|(_, s, v)| json!([s, v])).collect::<Vec<_>>(),
@@ -154,7 +164,8 @@ pub fn run(args: &Args) -> i32 {
     let seed = args.u64("seed", 1);
     let mut out = Out::create(&args.str("out", "/verif/work/C16/trace.ndjson"));
     let mut samples = vec![];
-    let mut b = 0u64;
+    // --b0: number the runs from here (replay of one run under its original number, which seeds the peers' ids)
+    let mut b = args.u64("b0", 0);
     let mut distinct = std::collections::HashSet::new();
     let mut emit = |arrived: Vec<(i64, i64)>, sync: bool, out: &mut Out, samples: &mut Vec<Value>, b: &mut u64| {
         let line = run_one(*b, &arrived, sync, seed);
